@@ -397,6 +397,7 @@ def run(ctx):
     ctx.floor("R19.o1", "output streams", total_streams, 4)
     no_streambuf_bypass(ctx)
     delivery_steps_are_checked(ctx)
+    error_state_is_never_cleared(ctx)
 
 def no_streambuf_bypass(ctx):
     """R19.b: o2 relies on `a failed write sets badbit/failbit on the ostream`.  That holds for operator<<, put() and
@@ -466,3 +467,46 @@ def delivery_steps_are_checked(ctx):
                "no output is moved into place by a call whose result is ignored" if not bad else
                "the result of %s() is discarded: a failure to deliver the output is never seen" % callee_short(bad[0]))
     ctx.floor("R19.r", "main() functions of the tools", n, 3)
+
+
+def _state_clears(f):
+    out = []
+    for c in f.walk():
+        if c.get("k") != "call":
+            continue
+        fn = c.get("f") or ""
+        if fn.endswith("basic_ios::clear") or fn.endswith("ios_base::clear") or (callee_short(c) == "clear" and "this" in c and "stream" in ((strip_casts(peel(c["this"])) or {}).get("t") or "")):
+            out.append(("clear", c))
+        if callee_short(c) == "setstate" and fn.startswith("std::"):
+            continue
+        if callee_short(c) == "operator<<" and any("streambuf" in ((strip_casts(peel(a)) or {}).get("t") or "") for a in c.get("a", [])[-1:]):
+            out.append(("streambuf-insert", c))
+    return out
+
+
+def error_state_is_never_cleared(ctx):
+    """R19.c: the exit status is derived from the stream's error state after close().  That only works if nothing resets
+    the state in between, and if every insertion reports a failed write in it.  `out << in.rdbuf()` does not: when the
+    sink fails it sets at most failbit (never badbit), it sets failbit for an EMPTY source too, and code that inserts a
+    buffer therefore tends to clear failbit afterwards - taking the record of a real write failure with it.  No output
+    stream of the tools is clear()ed and no stream buffer is inserted wholesale.  (Seed S11-C19: the function bodies
+    streamed with rdbuf() followed by `clear(rdstate() & ~failbit)`.)"""
+    db = ctx.db
+    ctx.rule("R19.c", "in the tools and the generators no stream's error state is clear()ed and no `stream << streambuf*` insertion is made")
+
+    class _P:
+        def walk(self):
+            return [{"k": "call", "f": "std::basic_ios::clear", "this": {"k": "ref", "t": "std::ostream &"}, "a": []}]
+    if len(_state_clears(_P())) != 1:
+        ctx.broken("R19.c: the detector no longer recognises its own example")
+    n = 0
+    for f in db.functions:
+        if "/interrogate/" not in f.file:
+            continue
+        n += 1
+        for kind, c in _state_clears(f):
+            ctx.ob("R19.c", "%s|%s@%s" % (f.name, kind, f.loc(c).split(":")[-1]), False, f.loc(c),
+                   "the stream's error state is reset: an earlier write failure is forgotten" if kind == "clear" else
+                   "a stream buffer is inserted wholesale: a failing sink sets at most failbit, which callers of this idiom clear")
+    ctx.ob("R19.c", "tools|error-state-kept", True, "src/interrogate", "%d functions examined" % n)
+    ctx.floor("R19.c", "functions examined", n, 300)
